@@ -1,6 +1,7 @@
 //! vcheck — one sub-command per claimed property.
 mod c01;
 mod c02;
+mod c03;
 mod c09;
 mod c15;
 
@@ -14,6 +15,8 @@ fn main() {
     let check: &dyn Check = match id.as_str() {
         "C01" => &c01::C01,
         "C02" => &c02::C02,
+        "C03" => &c03::C03,
+        "C04" => &c03::C04,
         "C09" => &c09::C09,
         "C15" => &c15::C15,
         o => harness_error(&format!("no check for property {o}")),
